@@ -5,7 +5,8 @@
 From V.lib Require Import Base.
 From V.c13 Require Import C13Spec C13Model C13Bits C13EscProofs C13MarkProofs
   C13WriterProofs C13ReaderProofs C13RoundTrip C13PlainProofs
-  C13ModelExt C13TrailProofs C13FswProofs C13FswRoundTrip C13ByteWriterProofs.
+  C13ModelExt C13TrailProofs C13FswProofs C13FswRoundTrip C13ByteWriterProofs
+  C13WideProofs C13StickyProofs C13FailProofs C13ExactProofs.
 
 (* ---- emulation prevention, byte level, every byte string ---- *)
 Theorem C13_unescape_escape : forall l : list N, unescape (escape l) = l.
@@ -256,3 +257,194 @@ Proof. vm_compute. split; reflexivity. Qed.
 Example ex_bw : bbytes (run_bw 9 [BU 2 258; BU48 1108152157446; BU 4 7; BSlice [9]]) = [1;2;1;2;3;4;5;6;0] /\
   berr (run_bw 9 [BU 2 258; BU48 1108152157446; BU 4 7; BSlice [9]]) = true.
 Proof. vm_compute. split; reflexivity. Qed.
+
+(* ================================================================== second extension (C13b) *)
+(* ---- widths: the exact domain of the 64-bit accumulators ---- *)
+(* Write(bits, n) appends exactly the n low bits whenever pending + n <= 64: every n <= 57 at any alignment,
+   up to n = 64 at a byte boundary; n = 0 appends nothing *)
+Theorem C13_write_exact_fit : forall esc s raw bits n,
+  WInv esc s raw -> wn s + n <= 64 ->
+  exists raw',
+    WInv esc (write_gen esc s bits n) raw' /\
+    bytes_to_bits raw' ++ pending (write_gen esc s bits n)
+    = bytes_to_bits raw ++ pending s ++ bits_of (N.to_nat n) bits /\
+    exists added, raw' = raw ++ added /\ Forall (fun b => b < 256) added.
+Proof. exact write_gen_fit. Qed.
+Print Assumptions C13_write_exact_fit.
+
+(* a value wider than n bits is masked, never spilled into the neighbouring values *)
+Theorem C13_write_masks_value : forall esc s bits n,
+  write_gen esc s bits n = write_gen esc s (bits mod 2 ^ n) n.
+Proof. exact write_gen_masks. Qed.
+Print Assumptions C13_write_masks_value.
+
+(* pending + n = 65: the first pending bit is lost (witness: 7 one bits, then Write(1, 58)); 64 bits at a byte
+   boundary are fine *)
+Theorem C13_write_spill_refuted :
+  (let ops := [WBits 127 7; WBits 1 58] in
+   fst (run_reader (map rop_of ops) (rinit (wout (run_writer (ops ++ [WTrail]))))) = [VN 63; VN 1]) /\
+  (let ops := [WBits 255 8; WBits 18446744073709551615 64] in
+   fst (run_reader [RBits 8; RBits 32; RBits 32] (rinit (wout (run_writer (ops ++ [WTrail])))))
+   = [VN 255; VN 4294967295; VN 4294967295]).
+Proof. exact (conj write_spill_58 write_64_aligned). Qed.
+Print Assumptions C13_write_spill_refuted.
+
+Theorem C13_read_bits57 : forall s n,
+  RInv s -> rn s < 8 -> n <= 57 -> n <= N.of_nat (length (rbits s)) ->
+  let '(v, s') := read s n in
+  v = val_of (firstn (N.to_nat n) (rbits s)) /\
+  rbits s' = skipn (N.to_nat n) (rbits s) /\
+  RInv s' /\ rn s' < 8 /\ rdata s' = rdata s.
+Proof. exact read_spec57. Qed.
+Print Assumptions C13_read_bits57.
+
+Theorem C13_read_spill_refuted :
+  let s1 := snd (read (rinit (repeat 255 10)) 7) in
+  fst (read s1 58) = 2 ^ 57 - 1 /\ rerr (snd (read s1 58)) = false.
+Proof. exact read_spill_58. Qed.
+Print Assumptions C13_read_spill_refuted.
+
+(* ---- Exp-Golomb over the whole range of the code ---- *)
+(* the repaired WriteExpGolomb: every value is either coded exactly (<= 2^57 - 2) or refused, error set, nothing
+   written, pending bits untouched *)
+Theorem C13_ue_total : forall s cur v,
+  XStream s cur ->
+  (v <= max_ue -> XStream (write_ue_x s v) (cur ++ ue_code v)) /\
+  (max_ue < v -> write_ue_x s v = mkWX (xs s) true (xrem s)).
+Proof. exact write_ue_x_total. Qed.
+Print Assumptions C13_ue_total.
+
+(* the reader decodes every code up to 2^58 - 2 at any alignment *)
+Theorem C13_read_ue57 : forall s v rest,
+  RGood s -> v + 1 < 2 ^ 58 -> rbits s = ue_code' v ++ rest ->
+  exists s', read_ue s = (v, s') /\ rbits s' = rest /\ RGood s' /\ rdata s' = rdata s.
+Proof. exact read_ue_spec57. Qed.
+Print Assumptions C13_read_ue57.
+
+Theorem C13_se_mapping57 : forall s k rest,
+  RGood s -> se_to_ue k + 1 < 2 ^ 58 -> rbits s = ue_code' (se_to_ue k) ++ rest ->
+  exists s', read_se s = (k, s') /\ rbits s' = rest /\ RGood s' /\ rdata s' = rdata s.
+Proof. exact read_se_spec57. Qed.
+Print Assumptions C13_se_mapping57.
+
+(* the bound is tight: without the range check (C13Model.write_ue = the code before repo commit 9ec0951) the value
+   2^57 - 1 written after 7 pending bits corrupts the value written before it *)
+Theorem C13_ue_bound_refuted :
+  let ops := [WBits 127 7; WUe (max_ue + 1)] in
+  value_op57 (WUe (max_ue + 1)) = false /\
+  fst (run_reader (map rop_of ops) (rinit (wout (run_writer (ops ++ [WTrail])))))
+  = [VN 63; VN (max_ue + 1)].
+Proof. exact ue_bound_tight. Qed.
+Print Assumptions C13_ue_bound_refuted.
+
+(* ReadSignedGolomb at the uint boundary: equal to the standard mapping unless codeNum = 2^64 - 1, where the
+   uint addition wraps and Go returns 0 (stream: 64 zero bits, a one, 64 zero bits) *)
+Theorem C13_se_uint_boundary :
+  (forall s, fst (read_ue s) < 18446744073709551615 -> read_se64 s = read_se s) /\
+  fst (read_ue (rinit se_boundary_stream)) = 18446744073709551615 /\
+  fst (read_se64 (rinit se_boundary_stream)) = 0%Z /\
+  rerr (snd (read_se64 (rinit se_boundary_stream))) = false.
+Proof. exact (conj read_se64_eq se_boundary). Qed.
+Print Assumptions C13_se_uint_boundary.
+
+(* ---- the round trip over the exact domain, through the repaired writer ---- *)
+(* any sequence of fixed-width (<= 57 bits, value fits), flag, ue (<= 2^57 - 2) and se values: no error, and the
+   matching reads return the values *)
+Theorem C13_roundtrip_exact : forall ops,
+  forallb value_op57 ops = true ->
+  let w := run_wx None (ops ++ [WTrail]) in
+  xerr w = false /\
+  exists s', run_reader (map rop_of ops) (rinit (xout w)) = (map rval_of ops, s') /\ rerr s' = false.
+Proof. exact roundtrip_exact. Qed.
+Print Assumptions C13_roundtrip_exact.
+
+Theorem C13_writer_is_escape57 : forall ops,
+  forallb op_ok57 ops = true ->
+  exists raw, wout (run_writer ops) = escape raw /\
+              bytes_to_bits raw ++ pending (run_writer ops) = all_bits ops /\
+              (length (pending (run_writer ops)) < 8)%nat /\
+              Forall (fun b => b < 256) raw.
+Proof. exact writer_is_escape57. Qed.
+Print Assumptions C13_writer_is_escape57.
+
+Example ex_value_ops57 :
+  forallb value_op57 [WBits 144115188075855871 57; WFlag true; WUe max_ue; WSe (-72057594037927935); WBits 5 3] = true.
+Proof. vm_compute. reflexivity. Qed.
+
+(* ---- EBSPWriter / Writer over an io.Writer that fails after k bytes ---- *)
+(* the bytes delivered are the first k bytes of the fault-free output; AccError is set exactly when the output was
+   cut (or the fault-free run itself refused a value) *)
+Theorem C13_failing_writer_prefix : forall ops k,
+  xout (run_wx (Some k) ops) = firstn (N.to_nat k) (xout (run_wx None ops)) /\
+  xerr (run_wx (Some k) ops) = xerr (run_wx None ops) || (k <? lenN (xout (run_wx None ops))).
+Proof. exact failing_writer_prefix. Qed.
+Print Assumptions C13_failing_writer_prefix.
+
+Theorem C13_failing_plain_writer_prefix : forall ops k,
+  xout (run_wx_plain (Some k) ops) = firstn (N.to_nat k) (xout (run_wx_plain None ops)) /\
+  xerr (run_wx_plain (Some k) ops) = xerr (run_wx_plain None ops) || (k <? lenN (xout (run_wx_plain None ops))).
+Proof. exact failing_plain_writer_prefix. Qed.
+Print Assumptions C13_failing_plain_writer_prefix.
+
+(* without a failure and with accepted values the error-aware model is the writer of C13Model: every theorem about
+   run_writer is a theorem about the code over a working io.Writer *)
+Theorem C13_faultfree_is_writer : forall ops,
+  forallb ue_ok ops = true -> run_wx None ops = mkWX (run_writer ops) false None.
+Proof. exact run_wx_is_run_writer. Qed.
+Print Assumptions C13_faultfree_is_writer.
+
+(* first error kept: every later write is a no-op on the whole state *)
+Theorem C13_writer_error_sticky : forall s o, xerr s = true -> wxstep s o = s.
+Proof. exact wxstep_after_error. Qed.
+Print Assumptions C13_writer_error_sticky.
+
+Example ex_failing_writer :
+  xout (run_wx (Some 3) [WBits 0 16; WBits 1 8; WUe 7; WTrail]) = [0; 0; 3] /\
+  xerr (run_wx (Some 3) [WBits 0 16; WBits 1 8; WUe 7; WTrail]) = true /\
+  xout (run_wx None [WBits 0 16; WBits 1 8; WUe 7; WTrail]) = [0; 0; 3; 1; 17].
+Proof. vm_compute. repeat split. Qed.
+
+(* ---- reads after the first error (EOF) ---- *)
+(* sticky: every read of EBSPReader / Reader returns the zero value and leaves error, accumulator and counters as
+   they are *)
+Theorem C13_reader_eof_sticky : forall s, rerr s = true ->
+  (forall o, rstep s o = (rzero o, s)) /\
+  (forall ops, run_reader ops s = (map rzero ops, s)) /\
+  read_trailing s = Some (TNil, s) /\
+  read_se64 s = (0%Z, s) /\
+  (forall n, read_plain s n = (0, s)) /\
+  read_flag_plain s = (false, s) /\
+  (forall n, n <> 0 -> read_signed64 s n = Some (0%Z, s)).
+Proof.
+  intros s H.
+  exact (conj (fun o => rstep_after_error s o H)
+        (conj (fun ops => sticky_run ops s H)
+        (conj (read_trailing_after_error s H)
+        (conj (read_se64_after_error s H)
+        (conj (fun n => read_gen_after_error false s n H)
+        (conj (read_flag_plain_after_error s H)
+              (fun n Hn => read_signed64_after_error s n H Hn))))))).
+Qed.
+Print Assumptions C13_reader_eof_sticky.
+
+(* the read that fails returns 0 and has consumed every byte of the input: NrBytesRead = len(data) from then on *)
+Theorem C13_read_eof_position : forall esc s n,
+  rerr s = false -> rpos s <= N.of_nat (length (rdata s)) ->
+  rerr (snd (read_gen esc s n)) = true ->
+  fst (read_gen esc s n) = 0 /\ nr_bytes_read (snd (read_gen esc s n)) = N.of_nat (length (rdata s))
+  /\ rdata (snd (read_gen esc s n)) = rdata s.
+Proof. exact read_eof_position. Qed.
+Print Assumptions C13_read_eof_position.
+
+(* ... and it fails exactly when fewer than n bits are left (n <= 57) *)
+Theorem C13_read_past_end57 : forall s n,
+  RInv s -> rn s < 8 -> n <= 57 -> N.of_nat (length (rbits s)) < n ->
+  fst (read s n) = 0 /\ rerr (snd (read s n)) = true.
+Proof. exact read_fail57. Qed.
+Print Assumptions C13_read_past_end57.
+
+Example ex_eof_sticky :
+  let s := snd (read (rinit [1; 2]) 24) in
+  rerr s = true /\ nr_bytes_read s = 2 /\ fst (run_reader [RBits 8; RUe; RSe; RFlag; RMore] s)
+  = [VN 0; VN 0; VZ 0; VB false; VMore None].
+Proof. vm_compute. repeat split. Qed.
